@@ -2,6 +2,7 @@ package graph
 
 import (
 	"reflect"
+	"strings"
 	"strconv"
 
 	"github.com/llir/llvm/ir"
@@ -150,4 +151,61 @@ func GraphMDRefs(m *ir.Module) (refs map[int64]int, unlisted []int64) {
 	}
 	walk(reflect.ValueOf(m), 0)
 	return refs, unlisted
+}
+
+// MetadataObjects returns the addresses of all objects of package metadata
+// (tuples, specialised nodes, strings, named definitions, attachments, ...)
+// reachable from m, with the Go type of each.
+func MetadataObjects(m *ir.Module) map[uintptr]string {
+	out := map[uintptr]string{}
+	seen := map[uintptr]bool{}
+	var walk func(v reflect.Value, depth int)
+	walk = func(v reflect.Value, depth int) {
+		if !v.IsValid() || depth > 4000 {
+			return
+		}
+		switch v.Kind() {
+		case reflect.Interface:
+			if !v.IsNil() {
+				walk(v.Elem(), depth+1)
+			}
+		case reflect.Ptr:
+			if v.IsNil() {
+				return
+			}
+			p := v.Pointer()
+			if seen[p] {
+				return
+			}
+			seen[p] = true
+			et := v.Type().Elem()
+			if et == bigIntT || et == bigFloatT {
+				return
+			}
+			if et.Kind() == reflect.Struct && strings.HasSuffix(et.PkgPath(), "/ir/metadata") && et.Size() > 0 {
+				out[p] = et.String()
+			}
+			walk(v.Elem(), depth+1)
+		case reflect.Struct:
+			t := v.Type()
+			if t == bigIntT || t == bigFloatT {
+				return
+			}
+			for i := 0; i < t.NumField(); i++ {
+				if v.Field(i).CanInterface() {
+					walk(v.Field(i), depth+1)
+				}
+			}
+		case reflect.Slice, reflect.Array:
+			for i := 0; i < v.Len(); i++ {
+				walk(v.Index(i), depth+1)
+			}
+		case reflect.Map:
+			for _, k := range v.MapKeys() {
+				walk(v.MapIndex(k), depth+1)
+			}
+		}
+	}
+	walk(reflect.ValueOf(m), 0)
+	return out
 }
